@@ -177,12 +177,20 @@ type sameCase struct {
 	N     int      `json:"n"`
 	Fixed bool     `json:"fixed_bind_port,omitempty"`
 	Debug bool     `json:"debug,omitempty"`
+	// Silent: the controller does not answer at all - every call runs into its timeout, one after the other where they share a
+	// bind port; each of them has still put its own request on the wire
+	Silent bool `json:"silent_controller,omitempty"`
 }
 
 func runSame(c sameCase, scale int) (*rp.Fail, bool) {
 	f := farm.New()
 	defer f.Close()
-	answer := func(r farm.Received) []farm.Action { return []farm.Action{{Data: wireReply(r.Data)}} }
+	answer := func(r farm.Received) []farm.Action {
+		if c.Silent {
+			return nil
+		}
+		return []farm.Action{{Data: wireReply(r.Data)}}
+	}
 	ip := [4]byte{127, 0, 4, 3}
 	var u *farm.UDP
 	var tc *farm.TCP
@@ -271,7 +279,7 @@ func runSame(c sameCase, scale int) (*rp.Fail, bool) {
 }
 
 func checkSame(c sameCase) *rp.Fail {
-	ev.Case("wire/concurrent-identical-calls/"+c.Path, true, fmt.Sprintf("%+v", c))
+	ev.Case("wire/concurrent-identical-calls/"+c.Path+map[bool]string{true: "/silent-controller"}[c.Silent], true, fmt.Sprintf("%+v", c))
 	f, skipped := runSame(c, 1)
 	if skipped {
 		ev.Excluded("socket scenario skipped (no free port)", 1)
@@ -290,6 +298,12 @@ func genSame(t *rapid.T) sameCase {
 	op := rapid.SampledFrom([]string{"GetDevices", "GetDevices", "GetTime", "GetStatus", "OpenDoor", "GetCards", "GetDevice"}).Draw(t, "op")
 	cs := gen.Call(t, op)
 	c := sameCase{Case: cs, Path: rapid.SampledFrom([]string{"broadcast", "udp", "tcp"}).Draw(t, "path"), N: rapid.IntRange(2, 4).Draw(t, "n"), Fixed: rapid.Bool().Draw(t, "fixed"), Debug: gen.Debug(t, "debug")}
+	if rapid.IntRange(0, 3).Draw(t, "silent") == 0 {
+		c.Silent, c.N = true, rapid.IntRange(3, 7).Draw(t, "silent.n")
+		if rapid.Bool().Draw(t, "silent.directed") && op != "GetDevices" {
+			c.Path, c.Fixed = "udp", rapid.IntRange(0, 3).Draw(t, "silent.fixed") != 0
+		}
+	}
 	if c.Path == "tcp" && op != "GetDevices" {
 		// a second TCP connection from one fixed local port to the same controller is refused by the operating system while
 		// the first is in TIME_WAIT (before the controller is asked): not generated
